@@ -283,6 +283,13 @@ pub enum Cfg {
     EnableMax(u8),
 }
 
+/// the CRC calculator is replaced (by an equal one): nothing else about the encapsulator may change
+pub fn ev_set_crc(out: &mut Out, enc: &mut Encapsulator<dvb_gse_rust::crc::DefaultCrc>) {
+    enc.set_crc_calculator(dvb_gse_rust::crc::DefaultCrc {});
+    let _ = enc.get_crc_calculator();
+    out.emit(&Obj::new().str("ev", "cfg").str("op", "set_crc").num("n", 0).end());
+}
+
 pub fn ev_cfg<C: CrcCalculator>(out: &mut Out, enc: &mut Encapsulator<C>, c: Cfg) {
     let (op, n) = match c {
         Cfg::Reset => {
